@@ -528,6 +528,8 @@ class Evaluator:
                 res = mk_bin(CMP_TRAITS[d], self.deref_val(st, args[0]), self.deref_val(st, args[1]))
             elif d in REF_OPS and len(args) == 2:
                 res = mk_bin(REF_OPS[d], self.deref_val(st, args[0]), self.deref_val(st, args[1]))
+            elif d.startswith('core::num::<impl ') and nm in ('wrapping_add', 'wrapping_sub', 'wrapping_mul') and len(args) == 2:
+                res = mk_bin({'wrapping_add': 'Add.w', 'wrapping_sub': 'Sub.w', 'wrapping_mul': 'Mul.w'}[nm], args[0], args[1])
             elif d == 'core::ops::Not::not' and len(args) == 1:
                 res = mk_not(args[0])
             elif d == 'num_traits::AsPrimitive::as_' or d == 'num_traits::cast::AsPrimitive::as_':
